@@ -1403,7 +1403,8 @@ func (rn *runner) concurrentRound() {
 		entries int
 	}
 	k := 3 + w.r.below(4)
-	calls := make([]call, k)
+	impatient := 3 // callers for a FUTURE round that give up while the kernel is still working on their request
+	calls := make([]call, k+impatient)
 	for i := range calls {
 		cl := call{kind: kindPrecommit, r: R, proofs: map[string][]gcrypto.SparseSignature{}}
 		if w.r.chance(1, 3) {
@@ -1411,6 +1412,11 @@ func (rn *runner) concurrentRound() {
 		}
 		if w.r.chance(1, 6) {
 			cl.r = R + 1 + uint32(w.r.below(3)) // next round or a future one
+		}
+		if i >= k {
+			cl.r = R + 2 + uint32(w.r.below(3))
+			cl.kind = w.r.below(2)
+			cl.giveUp = time.Duration(1+w.r.below(150)) * time.Microsecond
 		}
 		ne := 1 + w.r.below(2)
 		for e := 0; e < ne; e++ {
@@ -1424,7 +1430,7 @@ func (rn *runner) concurrentRound() {
 			}
 			cl.proofs[t] = append(cl.proofs[t], rn.mkSigs(cur, cl.kind, H, cl.r, t, idxs, 3)...)
 		}
-		if w.r.chance(1, 3) {
+		if i < k && w.r.chance(1, 3) {
 			cl.giveUp = time.Duration(20+w.r.below(400)) * time.Microsecond
 		}
 		calls[i] = cl
@@ -1456,21 +1462,19 @@ func (rn *runner) concurrentRound() {
 	select {
 	case <-done:
 	case <-time.After(8 * time.Second):
-		fmt.Fprintf(rn.out, "HUNG callers did not return within 8s after a concurrent batch of %d messages at %d/%d\n", k, H, R)
-		rn.failed = true
-		return
+		fmt.Fprintf(rn.out, "HUNG callers did not return within 8s after a concurrent batch of %d messages at %d/%d\n", len(calls), H, R)
+		rn.hungExit()
 	}
 	rn.stats["concurrent_batches"]++
-	rn.stats["concurrent_calls"] += k
+	rn.stats["concurrent_calls"] += len(calls)
 	// the kernel must still answer
 	pctx, pcancel := context.WithTimeout(w.ctx, 3*time.Second)
 	var pv tmconsensus.VersionedRoundView
 	err := rn.m.VotingView(pctx, &pv)
 	pcancel()
 	if err != nil {
-		fmt.Fprintf(rn.out, "HUNG the kernel does not answer a view request after a concurrent batch of %d messages at %d/%d: %v\n", k, H, R, err)
-		rn.failed = true
-		return
+		fmt.Fprintf(rn.out, "HUNG the kernel does not answer a view request after a concurrent batch of %d messages at %d/%d: %v\n", len(calls), H, R, err)
+		rn.hungExit()
 	}
 	rn.io = TL([]string{TN(0)})
 	rn.printStep("STEP %s @@ %d @@ %s\n", "batch", 0, rn.observe())
@@ -1482,6 +1486,18 @@ func (rn *runner) concurrentRound() {
 			}
 		}
 	}
+}
+
+// hungExit ends the process: a blocked kernel goroutine cannot be waited for
+func (rn *runner) hungExit() {
+	for _, d := range internDefs {
+		fmt.Fprintln(rn.out, d)
+	}
+	fmt.Fprintf(rn.out, "END\n")
+	if f, ok := rn.out.(*os.File); ok {
+		f.Sync()
+	}
+	os.Exit(3)
 }
 
 // scripted runs one operation of an interleaving template against the mirror's current position;
